@@ -19,6 +19,10 @@ type RetryTransaction struct {
 	retryNumMutex sync.Mutex
 	retryNum      uint
 	timer         *time.Timer
+	// Incremented with every (re)start of the timer: a timer which has fired
+	// already but whose callback got the mutex only after Proceed restarted
+	// the timer is stale and must not use up the new step's retries.
+	timerGen      uint
 	retryCallback RTRetryCallback
 	State         interface{}
 	Data          interface{}
@@ -105,15 +109,21 @@ func (t *RetryTransaction) stopTimer() {
 
 func (t *RetryTransaction) restartTimer() {
 	t.stopTimer()
-	t.timer = time.AfterFunc(t.retryDelay, t.timeout)
+	t.timerGen++
+	gen := t.timerGen
+	t.timer = time.AfterFunc(t.retryDelay, func() { t.timeout(gen) })
 }
 
-func (t *RetryTransaction) timeout() {
+func (t *RetryTransaction) timeout(gen uint) {
 	t.retryNumMutex.Lock()
 	defer t.retryNumMutex.Unlock()
 
 	// The transaction could have been finished while the timer was firing.
 	if t.isDone() {
+		return
+	}
+	// ... or it could have proceeded to its next step.
+	if gen != t.timerGen {
 		return
 	}
 	t.retryNum++
